@@ -5,6 +5,7 @@ cd "$(dirname "$0")"
 export CARGO_NET_OFFLINE=true
 mkdir -p work replays evidence
 cp /repo/Cargo.lock harness/Cargo.lock
-(cd lean && lake build)
+exes=$(grep '^name = "gm' lean/lakefile.toml | sed 's/name = "\(.*\)"/\1/')
+(cd lean && lake build GrcovModel $exes)
 (cd harness && cargo build --offline)
 echo setup-ok
